@@ -1,0 +1,18 @@
+//go:build verif
+
+package schema
+
+import "time"
+
+// VerifSetClock replaces the package clock (clockNow: the claim date of new
+// claims and the "now" of Share.IsExpired) and returns a function restoring
+// the previous one. A nil now selects time.Now. The caller must not race it
+// with users of the clock.
+func VerifSetClock(now func() time.Time) (restore func()) {
+	old := clockNow
+	if now == nil {
+		now = time.Now
+	}
+	clockNow = now
+	return func() { clockNow = old }
+}
